@@ -383,10 +383,16 @@ def items_values(items):
     return [int(v) & (2**64 - 1) for k, v in items if k == "l"]
 
 
+class Garbage(Exception):
+    """cproc emitted data that cannot be a sane object image (e.g. a 2^64-byte zero fill)"""
+
+
 def items_bytes(items):
     b = bytearray()
     for k, v in items:
         if k == "z":
+            if int(v) > (1 << 24) or len(b) > (1 << 24):
+                raise Garbage("zero fill of %s bytes" % v)
             b.extend(b"\0" * int(v))
         else:
             for x in v.split():
@@ -449,6 +455,13 @@ def run_tool(cmd, src):
 
 
 def observe_cproc(defs, tid, offs, bfs):
+    try:
+        return observe_cproc1(defs, tid, offs, bfs)
+    except (Garbage, ValueError, OverflowError, MemoryError) as e:
+        return {"garbage": "%s: %s" % (type(e).__name__, e)}
+
+
+def observe_cproc1(defs, tid, offs, bfs):
     """numbers observed from cproc output for type tid: dict or None if something is missing"""
     v = defs.get("v%d" % tid)
     o = defs.get("o%d" % tid)
@@ -594,6 +607,9 @@ def batch_worker(job):
             counts["probes"] += 2 + len(rendered[tid][1]) + len(rendered[tid][2])
             if obs is None:
                 events.append({"kind": "unparsed", "tid": tid, "target": tg})
+                continue
+            if "garbage" in obs:
+                events.append({"kind": "garbage", "tid": tid, "target": tg, "what": obs["garbage"]})
                 continue
             if "rejected" in obs:
                 if "error" in model[tid]:
@@ -1030,6 +1046,12 @@ def run_batches(ck, cproc, all_types, oracles, label, batch=150, targets=None):
                     ck.violation({"kind": "rejected-valid", "target": ev["target"], "stderr": ev["stderr"],
                                   "program": PRELUDE + (PRELUDE_FIXED if job["fixed"] else "") + render(ev["tid"], t)[0],
                                   "drv": drv_type(t), "what": "valid type definition rejected (the model accepts it)"})
+                elif ev["kind"] == "garbage":
+                    t = by[ev["tid"]]
+                    ck.violation({"kind": "garbage-output", "target": ev["target"], "detail": ev["what"],
+                                  "program": PRELUDE + (PRELUDE_FIXED if job["fixed"] else "") + render(ev["tid"], t)[0],
+                                  "drv": drv_type(t), "what": "emitted object image is not a sane object of the type "
+                                  "(size/alignment bookkeeping corrupted)"})
                 elif ev["kind"] == "both-reject":
                     pass
                 elif ev["kind"] == "unparsed":
